@@ -55,7 +55,7 @@ class TLCResult:
         self.sim = "Simulation" in out or "simulation" in out
         self.violated = re.findall(r"Invariant (\S+) is violated", out)
         self.violated += re.findall(r"Action property (\S+) is violated", out)
-        if "Temporal properties were violated" in out:
+        if "Temporal properties were violated" in out or re.search(r"Temporal property \S+ was violated", out):
             self.violated.append("<temporal>")
         if "Deadlock reached" in out:
             self.violated.append("<deadlock>")
